@@ -467,10 +467,13 @@ class Discovery (EventMixin):
     return EventHalt # Probably nobody else needs this event
 
   def _delete_links (self, links):
-    for link in links:
-      self.raiseEventNoErrors(LinkEvent, False, link)
+    # Take them out of the adjacency before announcing it: listeners (e.g.,
+    # spanning_tree) recompute from the adjacency when they get the event.
+    links = list(links)
     for link in links:
       self.adjacency.pop(link, None)
+    for link in links:
+      self.raiseEventNoErrors(LinkEvent, False, link)
 
   def is_edge_port (self, dpid, port):
     """
